@@ -44,9 +44,9 @@ class Sandbox:
             e.update(extra)
         return e
 
-    def run(self, args, conf=None, stdin=None, env=None, kind='plain', timeout=60, preload=None, stdout_path=None):
+    def run(self, args, conf=None, stdin=None, env=None, kind='plain', timeout=60, preload=None, stdout_path=None, wrapper=None):
         exe = os.path.join(common.scratch_build(kind), 'mdsort')
-        cmd = [exe]
+        cmd = list(wrapper or []) + [exe]
         if conf is not None:
             cmd += ['-f', conf]
         cmd += list(args)
